@@ -30,4 +30,6 @@ sys.exit(1 if missing else 0)
 PY
 rc=$?
 rm -f "$OUT"
+# the suite's glog output lands in /tmp (one file per test binary run): do not let it pile up
+find /tmp -maxdepth 1 -name '*.test.*' -delete 2>/dev/null
 exit $rc
